@@ -135,13 +135,15 @@ func verifQTokenize(s string) ([]verifQTok, error) {
 			return nil, errVerifNonASCII
 		}
 		typ, n := verifQNext(s[i:])
-		for k := i; k < i+n; k++ {
+		// (non-ASCII characters are modelled inside quoted literals only: STRING admits any character but the quote,
+		// and no byte of a multi-byte UTF-8 sequence is a quote or a backslash)
+		for k := i; k < i+n && typ != gen.ContactQLParserSTRING; k++ {
 			if s[k] >= 0x80 {
 				return nil, errVerifNonASCII
 			}
 		}
 		// a token that stops right before a non-ASCII letter might have gone on
-		if i+n < len(s) && s[i+n] >= 0x80 && typ != gen.ContactQLParserWS && typ != gen.ContactQLParserLPAREN && typ != gen.ContactQLParserRPAREN {
+		if i+n < len(s) && s[i+n] >= 0x80 && typ != gen.ContactQLParserWS && typ != gen.ContactQLParserLPAREN && typ != gen.ContactQLParserRPAREN && typ != gen.ContactQLParserSTRING {
 			return nil, errVerifNonASCII
 		}
 		if typ != gen.ContactQLParserWS {
